@@ -476,12 +476,18 @@ class StdioClient:
                 "CRITICAL",
             )
 
-            self.process = await anyio.open_process(
-                [self.server.command, *self.server.args],
-                env=env,
-                stderr=subprocess.DEVNULL if suppress_stderr else sys.stderr,
-                start_new_session=True,
-            )
+            # Shielded: a cancel scope's cancellation is re-delivered at every
+            # checkpoint and so also breaks the clean-up asyncio does when a spawn
+            # is interrupted - the half-created child would be left unreaped with
+            # its pipes open. The spawn is short; the cancellation takes effect at
+            # the first checkpoint after it, when __aexit__ knows the child.
+            with anyio.CancelScope(shield=True):
+                self.process = await anyio.open_process(
+                    [self.server.command, *self.server.args],
+                    env=env,
+                    stderr=subprocess.DEVNULL if suppress_stderr else sys.stderr,
+                    start_new_session=True,
+                )
             logger.debug(
                 "Subprocess PID %s (%s) [stderr: %s]",
                 self.process.pid,
